@@ -106,6 +106,8 @@ def run(repo: Repo, rep: Report) -> None:
     rep.rule("ALG-10", "grid form: roots given as (y, x) become y * width + x; None entries kept; the label array is flattened row-major onto the grid graph")
     rep.saw(GRAPH, "_division_connected")
     small = [g for g in GRAPHS if g[1] <= 4]
+    xitems: List[Any] = []
+    all_ok = True
     for native in (False, True):
         for as_list in (False, True):
             deviating = []
@@ -121,6 +123,10 @@ def run(repo: Repo, rep: Report) -> None:
                         inst.w.call("division_connected", inst.s, arg, k, g, roots=roots, allow_empty_group=allow_empty)
                         refs, cons = (ref_native if native else ref_forest)(n, edges, k, allow_empty, roots)
                         same, diff = compare(inst, refs, cons)
+                        if n <= 3 and not as_list:
+                            xitems.append((f"{'primitive' if native else 'forest'} route, {gname} {edges}, {k} regions, allow_empty_group={allow_empty}, roots={roots}", inst,
+                                           [a for a in inst.arrays if a["user"]][0]["ids"],
+                                           (lambda n=n, edges=edges, k=k, allow_empty=allow_empty, roots=roots: valid_labelings(n, edges, k, allow_empty, roots))))
                         if same:
                             n_ok += 1
                         else:
@@ -134,8 +140,13 @@ def run(repo: Repo, rep: Report) -> None:
             if not deviating:
                 rep.ok("ENC-S", f"{label}: constraint set equals the reference schema on {n_ok} instances", points=n_ok)
                 continue
+            all_ok = False
             deviating.sort(key=lambda d: (d[1], len(d[2]), -d[5]))
             _triage_div(rep, label, deviating)
+    if all_ok:
+        from .encodings import cross_check
+
+        cross_check(rep, "division_connected", "_division_connected", xitems, total_budget_s=10.0, what="labelling")
     # grid form / roots conversion
     try:
         bad = None
